@@ -191,6 +191,11 @@ func (d *DBFT[H]) sendRecoveryRequest() {
 	// transactions or both, so re-request missing transactions here too.
 	if d.RequestSentOrReceived() && !d.hasAllTransactions() {
 		d.processMissingTx()
+		// All of them can be in the pool by now, the proposal must be checked
+		// and answered then as if the last transaction has just arrived.
+		if d.hasAllTransactions() && !d.ResponseSent() && !d.NotAcceptingPayloadsDueToViewChanging() {
+			d.processCollectedTransactions()
+		}
 	}
 	req := d.NewRecoveryRequest(uint64(d.Timer.Now().UnixNano()))
 	d.broadcast(d.NewConsensusPayload(&d.Context, RecoveryRequestType, req))
